@@ -122,9 +122,12 @@ type Sim struct {
 	cfg  ACfg
 }
 
+// lifetime of idle queued transactions; only the concurrent tier shortens it
+var poolLifetime = 1000 * time.Hour
+
 func realCfg(c ACfg) core.TxPoolConfig {
 	return core.TxPoolConfig{NoLocals: c.NoLocals, Journal: "", Rejournal: time.Hour, PriceLimit: c.PriceLimit, PriceBump: c.PriceBump,
-		AccountSlots: c.AccountSlots, GlobalSlots: c.GlobalSlots, AccountQueue: c.AccountQueue, GlobalQueue: c.GlobalQueue, Lifetime: 1000 * time.Hour}
+		AccountSlots: c.AccountSlots, GlobalSlots: c.GlobalSlots, AccountQueue: c.AccountQueue, GlobalQueue: c.GlobalQueue, Lifetime: poolLifetime}
 }
 
 func NewSim(w *World, h *History) *Sim {
@@ -254,6 +257,9 @@ func runHistory(run *hx.Run, h *History, emit bool) (fails []failure) {
 		var cf []clauseFail
 		cf = append(cf, post.CheckInv(h.Cfg, r.limits)...)
 		cf = append(cf, CheckReplacement(pre, post, h.Cfg, r.adds)...)
+		if o.Kind == "add" {
+			cf = append(cf, CheckLimitsAfterAdd(pre, post, h.Cfg, o.Txs[0], r.res)...)
+		}
 		if r.isReset {
 			cf = append(cf, CheckReorg(pre, post, h.Cfg, r.disc, r.inc, r.oldNum, r.newNum)...)
 		}
@@ -392,9 +398,9 @@ func main() {
 	}
 
 	// 2. random sequential histories
-	nh, maxOps := 300, 60
+	nh, maxOps := 800, 60
 	if run.Thorough() {
-		nh, maxOps = 12000, 120
+		nh, maxOps = 3000, 100
 	}
 	for i := 0; i < nh; i++ {
 		h := genHistory(run, rng.Fork(uint64(i)), maxOps)
@@ -405,13 +411,17 @@ func main() {
 	}
 
 	// 3. concurrent submissions and head changes (state clauses at snapshot points)
-	nc := 6
+	nc := 8
 	if run.Thorough() {
-		nc = 300
+		nc = 200
 	}
+	core.VerifSetEvictionInterval(3 * time.Millisecond) // the real idle-eviction tick runs during the concurrent histories
+	poolLifetime = 10 * time.Millisecond
 	for i := 0; i < nc; i++ {
 		concurrentRun(run, rng.Fork(uint64(1000000+i)))
 	}
+	core.VerifSetEvictionInterval(time.Minute)
+	poolLifetime = 1000 * time.Hour
 	run.Notes["accounts"] = nAccounts
 	run.Finish()
 }
